@@ -21,6 +21,7 @@ import MW.Lemmas.PendHistEx
 import MW.Lemmas.PendHistCredRun
 import MW.Lemmas.PendHistCredEx
 import MW.Lemmas.PendHistNotifyEx
+import MW.Lemmas.PendHistComposeEx
 import MW.Lemmas.TxmgrCodecRec
 namespace MW.Props.C09
 open MW MW.Model.Ledger MW.Lemmas.LedgerPending
@@ -661,8 +662,9 @@ example :
     notification while a pending transaction conflicts with the wallet's lagging chain (notes/C09.md, Rounds 4 and 5).
     Round 6 closed the other half: the disconnect steps of `notify_is_steps` ARE at the wallet's tip (`stepH .disconnect`)
     and the notification's store is the store of the run of `stepH` (`notify_is_run`, with `v.best` = tip of the wallet's
-    chain as a hypothesis on the world; C01's `processBlock_reaches` maintains it).  What stays open is ONLY this
-    specification-side equation (one-shot settle = composition of the single-block settles, members). -/
+    chain as a hypothesis on the world; C01's `processBlock_reaches` maintains it).  Round 6b: in THIS shape (Domain over
+    the two whole chains) the statement is refuted (`notify_refinement_def_refuted`: false below the fork point); the
+    corrected statement `C09_notify_refinement_at_fork` is PROVED (`notify_refinement`, domain `NotifyDom`). -/
 def C09_full_notify_refinement (Domain : Spec.Pending.Env → List Block → List Block → List Tx → Prop) : Prop :=
   ∀ e c0 (old new : List Block) P, Domain e (c0 ++ old) (c0 ++ new) P →
     ∀ t, t ∈ Spec.Pending.onChainMoved e (c0 ++ old) (c0 ++ new) P ↔
@@ -672,6 +674,47 @@ def C09_full_notify_refinement (Domain : Spec.Pending.Env → List Block → Lis
             (c0 ++ old.take (old.length - k - 1),
              Spec.Pending.onChainMoved e cp.1 (c0 ++ old.take (old.length - k - 1)) cp.2))
           (c0 ++ old, P))).2
+
+open MW.Lemmas.PendHist.Compose in
+/-- THE `def` ABOVE IS TOO STRONG AS SHAPED (Round 6b): its `Domain` sees only the two whole chains, so it cannot know the
+    fork point, and the statement quantifies over EVERY common prefix `c0`.  Below the fork point it is false: with
+    c0 = [], old = new = G-B1 (nothing moves) the one-shot move keeps the pending Tt, the composition disconnects G — the
+    parent Pp of Tt spends G's coinbase — and drops it (`cx_below_fork`, by evaluation).  So no `Domain` that admits this
+    (unmoved, perfectly ordinary) situation satisfies the `def`; the composition is only ever run from the fork point
+    (`notify_trace_heights`: the model disconnects down to the fork point), the corrected statement is
+    `C09_notify_refinement_at_fork`. -/
+theorem notify_refinement_def_refuted (Domain : Spec.Pending.Env → List Block → List Block → List Tx → Prop)
+    (hD : Domain cxE ([] ++ cxChain) ([] ++ cxChain) [cxT]) : ¬ C09_full_notify_refinement Domain :=
+  fun h => cx_refutes (h cxE [] cxChain cxChain [cxT] hD cxT)
+
+/-- the corrected statement: the domain knows the decomposition (`c0` = the common part up to the fork point) -/
+def C09_notify_refinement_at_fork
+    (Domain : Spec.Pending.Env → List Block → List Block → List Block → List Tx → Prop) : Prop :=
+  ∀ e c0 (old new : List Block) P, Domain e c0 old new P →
+    ∀ t, t ∈ Spec.Pending.onChainMoved e (c0 ++ old) (c0 ++ new) P ↔
+      t ∈ ((List.range new.length).foldl (fun (cp : List Block × List Tx) k =>
+          (c0 ++ new.take (k + 1), Spec.Pending.onChainMoved e cp.1 (c0 ++ new.take (k + 1)) cp.2))
+        ((List.range old.length).foldl (fun (cp : List Block × List Tx) k =>
+            (c0 ++ old.take (old.length - k - 1),
+             Spec.Pending.onChainMoved e cp.1 (c0 ++ old.take (old.length - k - 1)) cp.2))
+          (c0 ++ old, P))).2
+
+open MW.Lemmas.PendHist.Compose in
+/-- NOTIFY, SPECIFICATION SIDE (Round 6b): ONE `onChainMoved old new` (what the driver's spec applies per notification) has
+    the same MEMBERS as the block-by-block composition (what `pending_refines` / `notify_is_run` use), inside `NotifyDom`:
+    `c0` is the fork point (no block of the old branch on the new chain); ids of the pending transactions and of the
+    transactions of the old branch pairwise distinct; the pending list consistent with the old chain; old branch valid
+    (block ids distinct, a block's transactions neither on nor in conflict with the chain below, parents of block
+    transactions on the chain, no transaction spends the coinbase of a higher block); every prefix of the new chain valid
+    w.r.t. the candidates (a candidate on it is not conflicted by it, spends no coinbase of the old branch, has its
+    parents on it).  Proof: `settle_extend` / `settle_shrink` (settle in two steps = settle once, through `Lost`). -/
+theorem notify_refinement : C09_notify_refinement_at_fork NotifyDom :=
+  fun e c0 old new P D t => notify_compose e c0 old new P D t
+
+open MW.Lemmas.PendHist MW.Lemmas.PendHist.Compose MW.Lemmas.PendHist.Notify in
+/-- the domain is met by the reorganising notification above (G-B1-B2 → G-B1-B2x, fork point G-B1, T2 pending); both
+    sides are {T2, T1} there -/
+example : NotifyDom exE.env [exG, exB1] [exB2] [exB2x] [exT2] := exNotifyDom
 
 /-- FORMERLY OPEN (2), PROVED in Round 6: the credit relation along ALL histories of `pending_refines`, i.e.
     `credit_refines_partial` without the hypothesis at the disconnect steps.  Receive, connect and the purge of disconnect
